@@ -180,7 +180,7 @@ def emit_fasta(names, rows, width=60, blank_every=0, crlf=False, trail=b''):
     return b''.join(out)
 
 
-def emit_clustal(names, rows, width=60, header=b'CLUSTAL W (1.83) multiple sequence alignment', crlf=False, pad=2, cons=False):
+def emit_clustal(names, rows, width=60, header=b'CLUSTAL W (1.83) multiple sequence alignment', crlf=False, pad=2, cons=False, ragged=None, counts=False):
     nl = b'\r\n' if crlf else b'\n'
     L = len(rows[0]) if rows else 0
     w = max(len(n) for n in names) + pad
@@ -188,15 +188,24 @@ def emit_clustal(names, rows, width=60, header=b'CLUSTAL W (1.83) multiple seque
     if width <= 0:
         width = max(L, 1)             # unwrapped: one block
     for off in range(0, max(L, 1), width):
-        for n, r in zip(names, rows):
-            out.append(n.ljust(w) + r[off:off + width] + nl)
+        for k, (n, r) in enumerate(zip(names, rows)):
+            seg = r[off:off + width]
+            if ragged is not None:
+                # padding between name and residues is free-form: 1..5 blanks or a tab, different for every row
+                sep = ragged[(k + off) % len(ragged)]
+                line = n + sep + seg
+            else:
+                line = n.ljust(w) + seg
+            if counts:
+                line += b' %d' % (off + len(seg.replace(b'-', b'')),)
+            out.append(line + nl)
         if cons:
             out.append(b' ' * w + b' ' * min(width, L - off) + nl)
         out.append(nl)
     return b''.join(out)
 
 
-def emit_msf(names, rows, width=50, group=10, kind='N', crlf=False, gapch=b'.', title=b'x.msf'):
+def emit_msf(names, rows, width=50, group=10, kind='N', crlf=False, gapch=b'.', title=b'x.msf', ragged=None):
     nl = b'\r\n' if crlf else b'\n'
     L = len(rows[0]) if rows else 0
     w = max(len(n) for n in names) + 2
@@ -217,7 +226,7 @@ def emit_msf(names, rows, width=50, group=10, kind='N', crlf=False, gapch=b'.', 
             seg = r[off:off + width]
             if group:
                 seg = b' '.join(seg[i:i + group] for i in range(0, len(seg), group))
-            out.append(n.ljust(w) + seg + nl)
+            out.append((n + ragged[(off + len(n)) % len(ragged)] if ragged is not None else n.ljust(w)) + seg + nl)
         out.append(nl)
     return b''.join(out)
 
